@@ -42,7 +42,7 @@ type c11Scenario struct {
 var c11Kinds = []string{
 	"claimCreate", "claimCreate", "claimLaunch", "claimDelete", "claimGone", "claimRelabel",
 	"nodeCreate", "nodeCreate", "nodeLabel", "nodeCapacity", "nodeTaint", "nodeDelete", "nodeGone", "nodeProviderID",
-	"podCreate", "podCreate", "podCreate", "podBind", "podBind", "podRebind", "podRecreate", "podComplete", "podDelete", "podAnnotate", "daemonPod",
+	"podCreate", "podCreate", "podCreate", "podBind", "podBind", "podRebind", "podRecreate", "podComplete", "podDelete", "podAnnotate", "podAnnotate", "daemonPod",
 	"mark", "unmark",
 	"deliver", "deliver", "deliver", "deliver", "deliver", "deliver", "quiesce",
 }
@@ -309,7 +309,9 @@ func (x *c11World) step(op c11Op) {
 			if p.Annotations == nil {
 				p.Annotations = map[string]string{}
 			}
-			p.Annotations["controller.kubernetes.io/pod-deletion-cost"] = fmt.Sprint(50 * op.C)
+			// includes costs that turn the pod's eviction cost non-positive (<= -2^27) and back
+			costs := []int{50, -2147483647, 0, -300000000, 2147483647, -134217728}
+			p.Annotations["controller.kubernetes.io/pod-deletion-cost"] = fmt.Sprint(costs[op.C%len(costs)])
 			x.apply(p, "Pod")
 		}
 	case "mark", "unmark":
